@@ -1,6 +1,7 @@
 package protoserialization
 
 import (
+	"github.com/tink-crypto/tink-go/v2/key"
 	"github.com/tink-crypto/tink-go/v2/internal/verifrt"
 	"github.com/tink-crypto/tink-go/v2/internal/verifspec"
 	tinkpb "github.com/tink-crypto/tink-go/v2/proto/tink_go_proto"
@@ -51,5 +52,52 @@ func VerifH_fallback_key() {
 	}
 	again, _ := (&fallbackProtoKeySerializer{}).SerializeKey(k)
 	verifrt.AssertEq(again.KeyData().GetValue(), val, "the key is unaffected by writes into an earlier serialization")
+	verifrt.Reach("end")
+}
+
+// The input side: a fallback key built from a serialization (as ParseKey does for every key of
+// a keyset proto whose type has no registered parser - keyset.NewHandleWithNoSecrets,
+// insecurecleartextkeyset.Read, ...) does not share memory with the caller's KeyData message:
+// mutating the input afterwards - the value bytes in place, or the message's fields - changes
+// neither the key nor what it serializes to.
+func VerifH_fallback_key_input_isolation() {
+	private := verifrt.Choice("private", 2) == 1
+	mt := tinkpb.KeyData_REMOTE
+	if private {
+		mt = tinkpb.KeyData_ASYMMETRIC_PRIVATE
+	}
+	pt := [...]tinkpb.OutputPrefixType{tinkpb.OutputPrefixType_TINK, tinkpb.OutputPrefixType_RAW}[verifrt.Choice("prefix", 2)]
+	id := uint32(0)
+	if pt != tinkpb.OutputPrefixType_RAW {
+		id = verifrt.Uint32("id")
+	}
+	val := verifrt.Bytes("value", 1+verifrt.Choice("n", 3))
+	orig := append([]byte{}, val...)
+	kd := &tinkpb.KeyData{TypeUrl: "type.googleapis.com/custom.Key", Value: val, KeyMaterialType: mt}
+	ks, err := NewKeySerialization(kd, pt, id)
+	verifrt.Assert(err == nil, "NewKeySerialization")
+	// through ParseKey's own dispatch for unregistered type URLs
+	var k interface{ Equal(o key.Key) bool }
+	var ser func() (*KeySerialization, error)
+	if private {
+		pk, err := NewFallbackProtoPrivateKey(ks)
+		verifrt.Assert(err == nil, "NewFallbackProtoPrivateKey")
+		k, ser = pk, func() (*KeySerialization, error) { return (&fallbackProtoPrivateKeySerializer{}).SerializeKey(pk) }
+	} else {
+		fk, err := NewFallbackProtoKey(ks)
+		verifrt.Assert(err == nil, "NewFallbackProtoKey")
+		k, ser = fk, func() (*KeySerialization, error) { return (&fallbackProtoKeySerializer{}).SerializeKey(fk) }
+	}
+	_ = k
+	// the caller mutates its input after the call
+	delta := verifrt.Byte("delta")
+	verifrt.Assume(delta != 0)
+	kd.Value[0] ^= delta
+	kd.TypeUrl = "type.googleapis.com/other.Key"
+	kd.KeyMaterialType = tinkpb.KeyData_SYMMETRIC
+	out, err := ser()
+	verifrt.Assert(err == nil, "fallback SerializeKey")
+	verifrt.AssertEq(out.KeyData().GetValue(), orig, "the key's bytes are unaffected by the caller overwriting its input bytes in place")
+	verifrt.Assert(out.KeyData().GetTypeUrl() == "type.googleapis.com/custom.Key" && out.KeyData().GetKeyMaterialType() == mt, "the key's type URL and material type are unaffected by the caller changing its KeyData message")
 	verifrt.Reach("end")
 }
